@@ -31,22 +31,22 @@ theorem witnessDouble_resurrects :
 def witnessTorn : List HItem := [.opCrash (.ins r [0, 1, 2]) 5 (some ⟨1, .part⟩)]
 
 theorem witnessTorn_partial_operation :
-    (run 100 witnessTorn).take 2 = [.crashed, .opened [(r, [0])] [.persistNewMkdir, .walNewMkdir, .batchTmpwrite,
+    (run 100 witnessTorn).take 2 = [.crashed [], .opened [(r, [0])] [.persistNewMkdir, .walNewMkdir, .batchTmpwrite,
       .batchFsync, .batchRename, .metaTmpwrite, .metaFsync, .metaRename, .walRewriteUnlink]] ∧
     specJudge [] none (witnessTorn ++ [.restart]) (run 100 witnessTorn) = false := by decide
 
 /-- (3) the same write torn inside a multi-byte character: `read_all` fails, the engine does not open. -/
 def witnessMidchar : List HItem := [.opCrash (.ins r [1]) 5 (some ⟨0, .midchar⟩)]
 
-theorem witnessMidchar_unopenable : run 100 witnessMidchar = [.crashed, .openFailed] := by decide
+theorem witnessMidchar_unopenable : run 100 witnessMidchar = [.crashed [], .openFailed] := by decide
 
 /-- (4) a WAL that holds only a torn line is kept by recovery; the next acknowledged insert is glued onto that line
     and is lost at the following restart. -/
 def witnessTail : List HItem := [.opCrash (.ins r [0]) 5 (some ⟨0, .part⟩), .op (.ins r [2])]
 
 theorem witnessTail_loses_acked_write :
-    run 100 witnessTail = [.crashed, .opened [] [.persistNewMkdir, .walNewMkdir], .ack true [.walOpen, .walAppendWrite, .walAppendFsync],
-      .crashed, .opened [] [.persistNewMkdir, .walNewMkdir]] ∧
+    run 100 witnessTail = [.crashed [], .opened [] [.persistNewMkdir, .walNewMkdir], .ack true [.walOpen, .walAppendWrite, .walAppendFsync] [],
+      .crashed [], .opened [] [.persistNewMkdir, .walNewMkdir]] ∧
     specJudge [] none (witnessTail ++ [.restart]) (run 100 witnessTail) = false := by decide
 
 /-- (5) `delete_shard` unlinks the batch files one at a time before it touches WAL and metadata: a crash after the
@@ -64,5 +64,64 @@ theorem C13_refuted : ¬ C13_statement := by
   have h1 := h 2 witnessDouble
   rw [witnessDouble_resurrects.2] at h1
   exact absurd h1 (by decide)
+
+/-! ### what does hold (WAL layer, for all file contents, all requests, all cuts)
+
+The end-to-end invariant "recover(crash image) lies between acked and attempted" is *not* proved for the flush /
+compaction / drop paths (they are where the refutations live); what is proved is the durability core of `append`
+in Immediate mode and the exact shape of what tearing can do. -/
+
+/-- **C13_partial (acknowledged appends are durable at the WAL).** For every disk whose WAL is clean with entries
+    `ws`, every request `es`: after the append's `write` + `fsync` (the point where `append` returns and the engine
+    acknowledges), *every* crash image — whatever is torn in whatever file — yields exactly `ws ++ es` on replay. -/
+theorem C13_partial_acked_append_survives (d : Disk) (ws es : List (Name × Update))
+    (hf : get d .wal = some { synced := ws.map mk, unsynced := [] }) (cuts : Path → Option Cut) :
+    readAll (crash (applyAll d [.append .wal (es.map (fun e => .wal e.1 e.2)), .fsync .wal]) cuts) = some (ws ++ es) :=
+  acked_append_survives d ws es [] hf rfl cuts
+
+/-- **C13_partial (fsync is a barrier).** After `fsync` of the WAL no cut anywhere changes what replay reads. -/
+theorem C13_partial_fsync_barrier (d : Disk) (f : File Rec) (hf : get d .wal = some f) (cuts : Path → Option Cut) :
+    readAll (crash (apply d (.fsync .wal)) cuts) = walParse false f.items :=
+  readAll_after_fsync d f hf cuts
+
+/-- **before the fsync**: a crash that cuts the unsynced write after `k` lines (at the boundary, or leaving a
+    fragment of line `k+1`) makes replay see the old entries and the first `k` entries of the request: never
+    anything that was not attempted, but for `0 < k < |es|` a strict prefix of *one* operation. -/
+theorem C13_partial_torn_append_is_prefix (d : Disk) (ws es : List (Name × Update)) (k : Nat)
+    (hf : get d .wal = some { synced := ws.map mk, unsynced := [] }) :
+    readAll (crash (apply d (.append .wal (es.map (fun e => .wal e.1 e.2)))) (cutAt .wal ⟨k, .clean⟩)) = some (ws ++ es.take k) ∧
+    (k < es.length →
+      readAll (crash (apply d (.append .wal (es.map (fun e => .wal e.1 e.2)))) (cutAt .wal ⟨k, .part⟩)) = some (ws ++ es.take k)) :=
+  ⟨torn_append_prefix_clean d ws es k hf, fun hk => torn_append_prefix_part d ws es k hk hf⟩
+
+/-- the general form of witness (4): a WAL ending in a fragment loses the first entry appended after it. -/
+theorem C13_torn_tail_swallows_next (ws es : List (Name × Update)) (x : Rec) (e : Name × Update) :
+    walParse false ((ws.map mk ++ [.torn .part x]) ++ (e :: es).map mk) = some (ws ++ es) :=
+  torn_tail_swallows_next ws es x e
+
+/-- the general form of witness (3). -/
+theorem C13_midchar_unreadable (ws : List (Name × Update)) (s : Name) (u : Update) (hm : multibyte u.t = true)
+    (rest : List (Item Rec)) : walParse false (ws.map mk ++ .torn .midchar (.wal s u) :: rest) = none :=
+  midchar_read_fails ws s u hm rest
+
+/-- the hypotheses are met by a non-trivial state: the disk after two acknowledged inserts has a clean WAL with two
+    entries, and a third, two-tuple request torn after its first line yields three entries. -/
+example :
+    let w := runOp 100 (runOp 100 {} (.ins r [0])) (.ins r [1])
+    get w.disk .wal = some { synced := [((r, { t := 0, time := 1, diff := 1 }) : Name × Update), (r, { t := 1, time := 2, diff := 1 })].map mk,
+                             unsynced := [] } ∧
+    readAll (crash (apply w.disk (.append .wal [.wal r { t := 2, time := 3, diff := 1 }, .wal r { t := 3, time := 3, diff := 1 }]))
+      (cutAt .wal ⟨1, .clean⟩)) =
+      some [(r, { t := 0, time := 1, diff := 1 }), (r, { t := 1, time := 2, diff := 1 }), (r, { t := 2, time := 3, diff := 1 })] := by
+  decide
+
+/-- crash-free and boundary-crash histories do satisfy the Spec (the statement is not vacuous or everywhere false):
+    two relations, auto-flush, delete, compaction, a crash inside an insert before its fsync and one after. -/
+example :
+    let h : List HItem := [.op (.ins r [0]), .op (.ins [115] [1]), .op (.ins r [2]), .op (.del r [0]), .op (.compactAll []),
+      .opCrash (.ins r [3]) 1 none, .opCrash (.ins r [4]) 3 none]
+    specJudge [] none (h ++ [.restart]) (run 2 h) = true ∧
+      (run 2 h).getLast? = some (.opened [(r, [2, 4]), ([115], [1])] [.persistNewMkdir, .walNewMkdir]) := by
+  decide
 
 end ILV.Props.C13
